@@ -240,9 +240,23 @@ func c08MutationLabel(in ssa.Instruction) string {
 func c08InfeasibleAfter(M ssa.Instruction) []Edge {
 	fn := M.Parent()
 	var out []Edge
+	// M runs inside `for … := range S`: S is not empty afterwards
+	for _, l := range Loops(fn) {
+		if ranged, _, _, _, ok := l.RangeIndex(); ok && l.Contains(M) {
+			out = append(out, c08LenZeroEdges(fn, ranged)...)
+		}
+	}
 	after := func(to ssa.Instruction) bool { return reach(M.Block(), instrIndex(M)+1, to, nil) }
 	for _, i := range Ifs(fn) {
 		cond, t, f := ifEdges(i)
+		if cst, isConst := cond.(*ssa.Const); isConst && cst.Value != nil {
+			if cst.Value.String() == "true" {
+				out = append(out, f)
+			} else {
+				out = append(out, t)
+			}
+			continue
+		}
 		phi, ok := cond.(*ssa.Phi)
 		if !ok {
 			continue
@@ -349,8 +363,14 @@ func c08Unsaved(f *ssa.Function, r *c08Roles) (ssa.Instruction, *ssa.Return) {
 	_, off := c08AutoSaveEdges(f, r.store)
 	saves := c08SaveCalls(f, r)
 	for _, M := range c08Mutations(f, r) {
-		ct := newCut().Calls(saves).Edges(off...).Edges(c08InfeasibleAfter(M)...)
-		if ret := c08NilReturnAfter(M, ct); ret != nil {
+		M := M
+		mkCut := func() *cut { return newCut().Calls(saves).Edges(off...).Edges(c08InfeasibleAfter(M)...) }
+		if ret := c08NilReturnAfter(M, mkCut()); ret != nil {
+			// a save that runs under a condition the rule does not understand is
+			// reported at the function itself (Undecided), not pushed to callers
+			if len(c08BlamedGuards(f, r, M, mkCut, func(ct *cut) bool { return c08NilReturnAfter(M, ct) != nil })) > 0 {
+				continue
+			}
 			return M, ret
 		}
 	}
@@ -372,4 +392,82 @@ func c08ComputeDirty(p *Prog, r *c08Roles) {
 			}
 		}
 	}
+}
+
+// c08BlamedGuards: when a bad path exists after M, the conditions that decide
+// whether a save call runs and that the rule cannot relate to the mutation
+// (not AutoSaveIndex, not an error test, not a resolved flag): cutting the
+// non-save edge of such a condition removes every bad path.  The caller then
+// reports Undecided (naming the condition) instead of a violation.
+func c08BlamedGuards(f *ssa.Function, r *c08Roles, M ssa.Instruction, mkCut func() *cut, bad func(ct *cut) bool) []string {
+	saves := c08SaveCalls(f, r)
+	auto := c08StoreFieldLoads(f, r.store, "AutoSaveIndex")
+	infeasible := map[Edge]bool{}
+	for _, e := range c08InfeasibleAfter(M) {
+		infeasible[e] = true
+	}
+	after := func(to ssa.Instruction, ct *cut) bool { return reach(M.Block(), instrIndex(M)+1, to, ct) }
+	var out []string
+	for _, i := range Ifs(f) {
+		cond, t, fe := ifEdges(i)
+		if auto[cond] || infeasible[t] || infeasible[fe] {
+			continue
+		}
+		if _, isConst := cond.(*ssa.Const); isConst {
+			continue
+		}
+		if bo, ok := cond.(*ssa.BinOp); ok && (isNilConst(bo.X) || isNilConst(bo.Y)) && (isErrorType(bo.X.Type()) || isErrorType(bo.Y.Type())) {
+			continue
+		}
+		if !after(i, nil) {
+			continue
+		}
+		for _, pair := range [][2]Edge{{t, fe}, {fe, t}} {
+			saveSide, other := pair[0], pair[1]
+			guards := false
+			for _, sc := range saves {
+				in := sc.(ssa.Instruction)
+				if after(in, nil) && !after(in, newCut().Edges(saveSide)) {
+					guards = true
+				}
+			}
+			if !guards {
+				continue
+			}
+			ct := mkCut()
+			ct.Edges(other)
+			if !bad(ct) {
+				out = append(out, c09Trunc(cond.String())+" at "+f.Prog.Fset.Position(i.Pos()).String())
+			}
+		}
+	}
+	return out
+}
+
+// c08LenZeroEdges: like lenZeroEdges, but also accepts the identical SSA value
+// (a phi has several roots, so SameValue refuses it).
+func c08LenZeroEdges(fn *ssa.Function, S ssa.Value) []Edge {
+	var out []Edge
+	for _, i := range Ifs(fn) {
+		cond, t, f := ifEdges(i)
+		bo, ok := cond.(*ssa.BinOp)
+		if !ok {
+			continue
+		}
+		ln, ok := bo.X.(*ssa.Call)
+		if !ok || CalleeName(ln) != "builtin:len" || !(ln.Call.Args[0] == S || SameValue(ln.Call.Args[0], S)) {
+			continue
+		}
+		k, ok := constInt(bo.Y)
+		if !ok {
+			continue
+		}
+		switch {
+		case bo.Op == token.NEQ && k == 0, bo.Op == token.GTR && k == 0, bo.Op == token.GEQ && k == 1:
+			out = append(out, f)
+		case bo.Op == token.EQL && k == 0, bo.Op == token.LSS && k == 1, bo.Op == token.LEQ && k == 0:
+			out = append(out, t)
+		}
+	}
+	return out
 }
